@@ -244,6 +244,20 @@ Theorem C20_tuple_cat_transfer : forall ts, Forall (fun o : toperand => is_cat (
 Proof. exact tuple_cat_t_agrees. Qed.
 Print Assumptions C20_tuple_cat_transfer.
 
+(* construction / assignment over element types {int, const int, int&, const int&, int&&, move-only, copy-only} *)
+Theorem C20_pair_construct_assign_matrix : forall a b : elem, pair_traits_m a b = pair_traits_spec a b.
+Proof. exact pair_traits_agree. Qed.
+Print Assumptions C20_pair_construct_assign_matrix.
+Theorem C20_tuple_construct_matrix : forall es : list elem, tuple_traits_m es = tuple_traits_spec es.
+Proof. exact tuple_traits_agree. Qed.
+Print Assumptions C20_tuple_construct_matrix.
+Theorem C20_reference_wrapper_value : forall a b, refwrap_ops_m a b = refwrap_ops_spec a b.
+Proof. exact refwrap_ops_agree. Qed.
+Print Assumptions C20_reference_wrapper_value.
+Theorem C20_not_fn_static : forall v, notfn_static_m v = notfn_static_spec v.
+Proof. exact notfn_static_agree. Qed.
+Print Assumptions C20_not_fn_static.
+
 (* known finding KF-C20-tuple_cat-ctad: the result TYPE of tuple_cat comes from class template argument deduction *)
 Theorem C20_tuple_cat_result_kind_refuted : exists k, cat_result_kind_m k <> cat_result_kind_spec k.
 Proof. exact cat_result_kind_refuted. Qed.
